@@ -129,12 +129,15 @@ Definition accepts_publish (cfg : gw_cfg) (s : gw_state) (q tit : N) : bool :=
   end.
 
 Definition chk_C01 (cfg : gw_cfg) (s : gw_state) (ev : gw_event) (os : list obs) : list N :=
+  if gw_ended s then [] else
   match gw_ending s, ev_packet ev with
   | None, Some (Publish dup q r tit tid mid data) =>
     let pubs := List.filter is_mq_publish (mqs os) in
     if negb (accepts_publish cfg s q tit) then (if len pubs =? 0 then [] else [3]) else
     match denotes cfg s tit tid with
     | Some topic =>
+      (* not translatable to a valid MQTT PUBLISH (C24): rejected, never forwarded *)
+      if has_wildcard topic || (((q =? 1) || (q =? 2)) && (mid =? 0)) then (if len pubs =? 0 then [] else [4]) else
       match pubs with
       | [m] => if mq_eqb m (wire (MqPublish dup (if q =? 3 then 0 else q) r topic mid data)) then [] else [1]
       | _ => [1]
